@@ -95,8 +95,8 @@ CHECKS.update({
 
 CHECKS.update({
     "C13": dict(
-        text="LAYER A ONLY (use of the pool by writer.c and sorter.c): with the thread-pool API replaced by its documented contract (job then result callback, each exactly once, ordered for the writer, delivered at once / at the next pool call / only when the handler is joined), the pooled writer's file is judged well-formed with the same entries, offsets and counters by the independent decoder, the sorter yields the same folded output, every dispatched job is delivered exactly once and close/destroy return only after the handler was joined.",
-        note="The property's core quantifier -- all schedules of threadpool.c's mutex/condvar protocol, no hangs, bounded thread creation -- is NOT decided: CBMC 6.11 refuses the unit (unsound pointer handling under concurrency) and no other concurrency-capable solver-based engine is installed. This check only shows the callers are correct for any pool meeting the contract; mutants inside threadpool.c are out of its reach (DESIGN.md C13).",
+        text="LAYER B (threadpool.c itself): every protocol step of the real code -- dispatch, dispatch on a saturated pool, a worker's job, worker shutdown, result dequeue, end of stream, the handler loop, handler init/destroy, pool destroy -- is run once from every pre-state with a result queue and an idle list of 0..2 threads that satisfies the queue/idle-list invariant (max, count and outstanding-count slack symbolic) and must re-establish the invariant and meet its contract: job handed to an idle or newly created thread, never created at count == max, queued at the tail iff ordered, results out once each in queue order, thread recycled, waits exactly when not enabled, destroy/join return. LAYER A (writer.c and sorter.c): with the pool API replaced by that contract (delivery at once / at the next pool call / only at join), the pooled writer's file is judged well-formed with the same entries, offsets and counters by the independent decoder, the sorter yields the same folded output, every dispatched job is delivered exactly once and close/destroy return only after the handler was joined.",
+        note="Inductive steps cover call histories of any length only as far as each step is atomic: interleavings INSIDE a step (two threads inside the pool at once, signal before wait, spurious wake-ups, the unlocked mailbox reads in thread_worker) -- the property's quantifier over real thread schedules -- are NOT decided: CBMC 6.11 refuses threaded encodings of the unit (unsound pointer handling under concurrency), a sequentialised scheduler harness did not finish (attic/), no other concurrency-capable engine is installed (DESIGN.md I.5, C13). Lists longer than 2 are outside.",
         ref="DESIGN.md 4 C13"),
 })
 
